@@ -144,7 +144,7 @@ class Prop(PropBase):
     id = 'C15'
     coq_imports = ['PV.Model.FsRewrite']
     props_file = 'theories/Props/C15.v'
-    n_cases = {'quick': 6000, 'thorough': 40000}
+    n_cases = {'quick': 2500, 'thorough': 12000}
     parallel = True
     rule = ('scenarios = 5 steps (fileformat, filereplace, fileformatjson/yaml/toml) x payloads of '
             '0-4 lines/nodes x {single file, list (sub-directory, missing entry, duplicate), glob '
@@ -184,6 +184,13 @@ class Prop(PropBase):
                 c['faults'] = fs
                 cases.append(c)
         if tier == 'thorough':
+            for _ in range(400):
+                sc = G.random_scenario(rng)
+                tags = G.count_prims(sc)
+                for fs in G.random_fault_sets(tags, rng, 6):
+                    c = dict(sc)
+                    c['faults'] = fs
+                    cases.append(c)
             # real kills: a sample of crash points in a child process
             pool = [c for c in cases if not c['faults'] and c['label'].split('/')[0] in ('single', 'list')]
             rng.shuffle(pool)
